@@ -144,9 +144,9 @@ class Origins:
                         ex = mk_phi(tuple(m))
                 ex = ("downcast", ex, p["n"])
             elif k == "index":
-                ex = ("index", ex, self.local(p["l"], bb, idx, depth + 1))
+                ex = ("index", ex, self.local(p["l"], bb, idx, depth + 1), p.get("ty", ""))
             elif k == "cindex":
-                ex = ("index", ex, ("const", p["offset"], "usize", None))
+                ex = ("index", ex, ("const", p["offset"], "usize", None), p.get("ty", ""))
             elif k == "subslice":
                 ex = ("subslice", ex, p["from"], p["to"], p["from_end"])
             else:
@@ -233,6 +233,11 @@ class Origins:
             f = cs.term["func"]
             fex = self.operand(f, cs.bb, len(self.body.blocks[cs.bb]["stmts"]), depth + 1)
             return ("callind", fex, args, cs.loc())
+        if cs.fn["def"].endswith("mem::size_of") and len(cs.fn.get("args", [])) == 1:
+            sz = {"u8": 1, "i8": 1, "u16": 2, "i16": 2, "u32": 4, "i32": 4, "u64": 8, "i64": 8, "usize": 8, "isize": 8,
+                  "u128": 16, "i128": 16, "bool": 1, "char": 4}.get(cs.fn["args"][0])
+            if sz is not None:
+                return ("const", sz, "usize", None)
         return ("call", cs.callee, cs.decl, args, cs.loc(), cs.term.get("dty", ""))
 
     def rvalue(self, rv, bb, idx, depth):
